@@ -18,7 +18,7 @@ RULE = ("histories of 1..6 operations (list insert/append/pop, list insert_befor
         "auto_commit on, off with an explicit commit after each edit, and off with NO commit between edits for the operations that do not address lines by stored line number (all but delete / append_to_family); syntax ios and nxos (indent width 1 and 2). After EVERY step parse.get_text() is compared with the model "
         "(the list operation of the property); for append_to_family the observed insertion index must lie inside the family and no existing line may change parent "
         "(evaluated with the constructor model). exhaustive: every single operation x every target on every config of <= 3 lines over a 6-line alphabet. "
-        "non-trivial = the target text occurs more than once or is a prefix/regex-match of another line, or the op is delete/append_to_family on a parent; distinct by (op kind, config).")
+        "non-trivial = the target text occurs more than once or is a prefix/regex-match of another line, or the op is delete/append_to_family on a parent; distinct by (op kind, config). atf_repeat: 2-3 auto-indented append_to_family calls on the same line object that has children, auto_commit off, no commit in between.")
 EXHAUSTIVE = {"quick": True, "thorough": True}
 TRUSTED = ["Coq 8.16.1 kernel incl. vm_compute (no native_compute)",
            "hand model coq/Model/Session.v: each operation's text effect is the list operation named by the property; delete uses the descendants of the constructor model; tied by this correspondence after every step",
